@@ -25,7 +25,7 @@ LEVEL = "exploration"
 RULE = ("scenario = (supported list, preferred, api) x server answer kind x answer instant around the timeout x 0..3 distractors "
         "x optional duplicate answer; non-trivial = the answer was not simply 'proposed version, immediately' (mismatch, counter-proposal, "
         "malformed, error, silence, boundary timing, distractor or duplicate)")
-PROBES = ["mcpclient_initialize_after_cancelled_handshake", "write_channel_broken_after_request", "concurrent_second_handshake", "write_stream_backpressure", "reconnect_same_client", "through_real_stdio_client", "answer_exactly_at_timeout", "counter_proposal_accepted", "mismatch_rejected", "malformed_answer", "error_answer",
+PROBES = ["error_answer_carrying_a_result", "mcpclient_initialize_after_cancelled_handshake", "write_channel_broken_after_request", "concurrent_second_handshake", "write_stream_backpressure", "reconnect_same_client", "through_real_stdio_client", "answer_exactly_at_timeout", "counter_proposal_accepted", "mismatch_rejected", "malformed_answer", "error_answer",
           "silence", "duplicate_answer", "preferred_not_in_list", "invented_version_accepted"]
 TIERS = {"quick": {"runs": 30000, "wall": 45.0}, "thorough": {"runs": 3000000, "wall": 560.0}}
 ASSUMPTIONS = [
@@ -55,7 +55,7 @@ def generate(rng: random.Random, tier: str) -> dict:
     timeout = rng.choice(TIMEOUTS)
     dl = int(timeout / TICK)
     kind = rng.choice(["proposed", "proposed", "other_supported", "unsupported", "unsupported", "wellformed_unknown", "missing_version",
-                       "nonstring_version", "null_version", "missing_serverinfo", "bad_caps", "error", "error", "silence", "result_not_object"])
+                       "nonstring_version", "null_version", "missing_serverinfo", "bad_caps", "error", "error", "silence", "result_not_object", "error_with_result"])
     r = rng.random()
     if r < 0.35:
         at = dl + rng.choice([-10, -1, 0, 1, 10])
@@ -72,6 +72,9 @@ def generate(rng: random.Random, tier: str) -> dict:
         ans["version"] = f"{rng.randrange(1990, 2100):04d}-{rng.randrange(1, 13):02d}-{rng.randrange(1, 29):02d}"
     if kind == "nonstring_version":
         ans["version"] = rng.choice([20250618, 1.5, True, ["2025-06-18"], {"v": "2025-06-18"}])
+    if kind == "error_with_result":
+        ans["code"] = rng.choice([-32602, -32603, -32000, 401, 1])
+        ans["text"] = rng.choice(["boom", "not allowed", ""])
     if kind == "error":
         ans["code"] = rng.choice([-32602, -32602, -32600, -32601, -32603, -32000, -32001, 401, 0, 1])
         ans["text"] = rng.choice(["Unsupported protocol version", "unsupported PROTOCOL VERSION: x", "invalid params", "boom", ""])
@@ -109,7 +112,7 @@ def systematic(tier: str):
     timeout = 1.0
     dl = int(timeout / TICK)
     kinds = ["proposed", "other_supported", "unsupported", "wellformed_unknown", "missing_version", "nonstring_version", "null_version",
-             "missing_serverinfo", "bad_caps", "error", "silence", "result_not_object"]
+             "missing_serverinfo", "bad_caps", "error", "silence", "result_not_object", "error_with_result"]
     for kind in kinds:
         for at in (0, 1, dl // 2, dl - 1, dl, dl + 1):
             for api in ("send_initialize", "tracking", "stdio"):
@@ -123,6 +126,8 @@ def systematic(tier: str):
                         ans["version"] = "2031-02-03"
                     if kind == "nonstring_version":
                         ans["version"] = 20250618
+                    if kind == "error_with_result":
+                        ans["code"], ans["text"] = -32603, "boom"
                     if kind == "error":
                         ans["code"], ans["text"] = -32602, "Unsupported protocol version"
                     out.append({"v": 1, "api": api, "supported": ["2025-06-18", "2025-03-26", "2024-11-05"], "preferred": None, "timeout": timeout,
@@ -389,6 +394,10 @@ def _execute_stdio(scn: dict) -> dict:
                 res = {"jsonrpc": "2.0", "id": o["id"], "result": dict(base, protocolVersion=ans["version"])}
             elif k == "error":
                 res = {"jsonrpc": "2.0", "id": o["id"], "error": {"code": ans["code"], "message": ans["text"]}}
+            elif k == "error_with_result":
+                # an error envelope that also carries a perfectly good-looking result: still an error
+                res = {"jsonrpc": "2.0", "id": o["id"], "error": {"code": ans["code"], "message": ans["text"]},
+                       "result": dict(base, protocolVersion=version_for("proposed", 0))}
             elif k == "silence":
                 return []
             else:  # the malformed-result classes
@@ -547,6 +556,8 @@ def _execute_raw(scn: dict) -> dict:
             return {"jsonrpc": "2.0", "id": rid, "result": {"value": [proposed]}}
         if k == "error":
             return {"jsonrpc": "2.0", "id": rid, "error": {"code": a["code"], "message": a["text"]}}
+        if k == "error_with_result":
+            return {"jsonrpc": "2.0", "id": rid, "error": {"code": a["code"], "message": a["text"]}, "result": dict(base, protocolVersion=proposed)}
         return None
 
     async def main(sim):
@@ -576,6 +587,16 @@ def _execute_raw(scn: dict) -> dict:
 
         def deliver(kind, data):
             obj = build_inbound(scn["mode"], data)
+            if obj is None and kind == "answer:error_with_result":
+                # what a transport that is lenient about the extra member would hand over: the error model with the result riding along
+                try:
+                    from chuk_mcp.protocol.messages.json_rpc_message import JSONRPCError as _E
+                    obj = _E(jsonrpc="2.0", id=data["id"], error=data["error"], result=data["result"])
+                    if getattr(obj, "result", None) is None:
+                        object.__setattr__(obj, "result", data["result"])
+                    sim.probe("error_answer_carrying_a_result")
+                except Exception:
+                    obj = None
             if obj is None:
                 sim.rec("peer", "unbuildable", kind)
                 return
